@@ -50,6 +50,7 @@ def parseOpts (toks : List String) : Option Parsed := do
   let sd ← if sd == "-" then some none else (int? sd).map fun s => some (s * 1000000000)
   let pr ← field toks "PR"
   let pr ← if pr == "pl" || pr == "def" then some (some Predictor.linear) else if pr == "pc" then some (some Predictor.constant)
+    else if pr == "px" then some (some Predictor.shifted)
     else if pr == "nil" then some none else none
   let o ← (field toks "O").bind parseOracle
   let x ← (field toks "X").bind stringOfHex?
